@@ -444,7 +444,7 @@ def compare_with_fresh_process(ctx, sdl, enum_kind, judged):
 
 def run(ctx):
     rng = ctx.rng
-    n_schemas = ctx.n(9, 60)
+    n_schemas = ctx.n(9, 44)
     use_lean = ctx.model_ok and ctx.driver.available()
     lean_batch = [] if use_lean else None
     fixed_cases(ctx, lean_batch)
@@ -546,6 +546,12 @@ FIXED = [
     ("null-literal-vs-default-object", "{ lim(o: null) lim }", {}),
     ("null-literal-vs-default-nested-fragment", "{ lim ...N } fragment N on Query { lim(limit: null) }", {}),
     ("null-literal-both", "{ lim(limit: null) lim(limit: null) }", {}),
+    ("fragment-cycle-behind-entry", "{ ...Entry } fragment Entry on Query { ...A } fragment A on Query { ...B } fragment B on Query { ...A s }", {}),
+    ("fragment-cycle-behind-entry-chain", "{ ...E1 } fragment E1 on Query { s ...E2 } fragment E2 on Query { ...A } fragment A on Query { ...B } fragment B on Query { ...C } fragment C on Query { ...A }", {}),
+    ("fragment-cycle-behind-entry-defined-last", "{ ...Entry } fragment A on Query { ...B } fragment B on Query { ...A s } fragment Entry on Query { ...A }", {}),
+    ("fragment-cycle-behind-entry-middle", "{ ...Entry } fragment A on Query { ...B } fragment Entry on Query { ...A } fragment B on Query { ...A s }", {}),
+    ("fragment-cycle-behind-two-entries", "{ ...X ...Y } fragment X on Query { ...A } fragment Y on Query { ...X } fragment A on Query { ...B } fragment B on Query { ...A }", {}),
+    ("fragment-cycle-behind-entry-nested-field", "{ b { ...Eb } } fragment Eb on Ob { b { ...Ab } } fragment Ab on Ob { b { ...Bb } } fragment Bb on Ob { ...Ab id }", {}),
     ("fragment-cycle-beside-acyclic", "{ ...Loop ...Alpha } fragment Alpha on Query { s } fragment Loop on Query { ...Back } fragment Back on Query { ...Loop }", {}),
     ("fragment-cycle-beside-acyclic-first", "{ ...Alpha ...Loop } fragment Loop on Query { ...Back s } fragment Back on Query { ...Loop ...Alpha } fragment Alpha on Query { s }", {}),
     ("fragment-cycle-beside-acyclic-last", "{ ...Loop ...Zed } fragment Zed on Query { s } fragment Loop on Query { ...Back } fragment Back on Query { ...Loop }", {}),
